@@ -1159,11 +1159,11 @@ func checkC19(c *Check) {
 				msg = "a newly opened connection can be dropped (neither recorded for Close nor closed): " + r.F.Describe(path)
 			}
 			if false {
-			if found, w, decided := r.OnErr(newConnPt, call, true, r.F.IsNormalExit, owned); !decided {
-				msg = "the error of newConn is dropped"
-			} else if found {
-				msg = "a newly opened connection can be dropped (neither recorded for Close nor closed): " + w
-			}
+				if found, w, decided := r.OnErr(newConnPt, call, true, r.F.IsNormalExit, owned); !decided {
+					msg = "the error of newConn is dropped"
+				} else if found {
+					msg = "a newly opened connection can be dropped (neither recorded for Close nor closed): " + w
+				}
 			}
 		}
 		c.Hold("R7", "connectionForDomain:connection-owned", r.FI.Decl.Pos(), msg == "", msg)
